@@ -179,6 +179,12 @@ fn schema_inner<T: SerializeInner, const N: usize, const PRE: usize>(x: &T) {
     core::mem::forget(schema);
 }
 
+/// Zero-sized Rust type that still writes bytes (an 8-byte variant index).
+#[derive(epserde::Epserde, Debug, PartialEq, Eq, Clone, Copy)]
+pub enum ESingle {
+    Only,
+}
+
 macro_rules! sc {
     ($($name:ident @ $unw:literal => $body:block);* $(;)?) => {$(
         #[cfg_attr(kani, kani::proof)] #[cfg_attr(kani, kani::unwind($unw))]
@@ -206,6 +212,9 @@ sc!(
     c18_zal32_p8 @ 40 => { let x = ZAl32 { x: any() }; schema_inner::<_, 64, 8>(&x) };
     c18_zal32_p16 @ 40 => { let x = ZAl32 { x: any() }; schema_inner::<_, 64, 16>(&x) };
     c18_zal32_p31 @ 40 => { let x = ZAl32 { x: any() }; schema_inner::<_, 64, 31>(&x) };
+    c18_esingle_p0 @ 26 => { schema_inner::<_, 16, 0>(&ESingle::Only) };
+    c18_arr_u64x0_p1 @ 26 => { let x: [u64; 0] = []; schema_inner::<_, 16, 1>(&x) };
+    c18_hold_esingle @ 26 => { let x = Hold { a: any::<u8>(), z: ESingle::Only, b: any::<u8>() }; schema_inner::<_, 32, 0>(&x) };
     c18_tup3 @ 26 => { let x: (u64, u64, u64) = (any(), any(), any()); schema_inner::<_, 48, 5>(&x) };
 );
 
